@@ -19,6 +19,7 @@ const FILES: &[(&str, &str)] = &[
     ("ciphersuite", "ciphersuite.rs"),
     ("ksf", "ksf.rs"),
     ("group", "key_exchange/group/mod.rs"),
+    ("group_ec", "key_exchange/group/elliptic_curve.rs"),
     ("keypair", "keypair.rs"),
     ("traits", "key_exchange/traits.rs"),
     ("tripledh", "key_exchange/tripledh.rs"),
@@ -42,6 +43,8 @@ const DROPPED_IMPL_TRAITS: &[&str] = &[
 const BOOKKEEPING: &[&str] = &[
     "Add", "ArrayLength", "IsLess", "IsLessOrEqual", "NonZero", "Le", "ProxyHash", "BlockSizeUser",
     "OutputSizeUser", "Zeroize", "ZeroizeOnDrop", "CoreProxy",
+    // elliptic_curve.rs: every bound except `G: GroupDigest` (the prelude's GroupDigest shim bundles them as associated-type bounds)
+    "ModulusSize", "FromEncodedPoint", "ToEncodedPoint", "CofactorGroup", "FromOkm", "HashMarker", "FixedOutput",
 ];
 
 struct Ctx {
@@ -263,6 +266,46 @@ impl<'c> Rw<'c> {
     fn desugar_combinator(&mut self, mc: &ExprMethodCall) -> Option<Expr> {
         let sp = mc.method.span();
         let m = mc.method.to_string();
+        // E.map(|x| B).ok().filter(|p| C).ok_or(ERR)   (Result -> Result; ERR a path: evaluated on either failing side)
+        if m == "ok_or" && mc.args.len() == 1 && matches!(&mc.args[0], Expr::Path(_)) {
+            if let Expr::MethodCall(fl) = &*mc.receiver {
+                if fl.method == "filter" && fl.args.len() == 1 {
+                    if let (Expr::MethodCall(okc), Expr::Closure(fc)) = (&*fl.receiver, &fl.args[0]) {
+                        if okc.method == "ok" && okc.args.is_empty() && fc.inputs.len() == 1 {
+                            if let Expr::MethodCall(mp) = &*okc.receiver {
+                                if mp.method == "map" && mp.args.len() == 1 {
+                                    if let Expr::Closure(mcl) = &mp.args[0] {
+                                        if mcl.inputs.len() == 1 {
+                                            let (e0, x, b, pp, c, err) = (&mp.receiver, &mcl.inputs[0], &mcl.body, &fc.inputs[0], &fc.body, &mc.args[0]);
+                                            self.cx.rule("R4.map_ok_filter_ok_or");
+                                            return Some(parse_quote!( match #e0 {
+                                                Ok(#x) => { let __f = #b; let __keep = { let #pp = &__f; #c }; if __keep { Ok(__f) } else { Err(#err) } }
+                                                Err(_) => Err(#err),
+                                            } ));
+                                        }
+                                    }
+                                }
+                            }
+                        }
+                    }
+                }
+            }
+        }
+        // E.map_err(|_| A).and_then(|s| B)   (Result -> Result)
+        if m == "and_then" && mc.args.len() == 1 {
+            if let (Expr::MethodCall(me), Expr::Closure(ac)) = (&*mc.receiver, &mc.args[0]) {
+                if me.method == "map_err" && me.args.len() == 1 && ac.inputs.len() == 1 {
+                    if let Expr::Closure(ec) = &me.args[0] {
+                        if ec.inputs.len() == 1 {
+                            let (e0, a, sp_, b) = (&me.receiver, &ec.body, &ac.inputs[0], &ac.body);
+                            let ep: Pat = match &ec.inputs[0] { Pat::Wild(_) => parse_quote!(_e), p => p.clone() };
+                            self.cx.rule("R4.map_err_and_then");
+                            return Some(parse_quote!( match #e0 { Ok(#sp_) => #b, Err(#ep) => Err(#a) } ));
+                        }
+                    }
+                }
+            }
+        }
         // X.map(Ctor)  with Ctor a path  (Result -> Result)
         if m == "map" && mc.args.len() == 1 {
             if let Expr::Path(p) = &mc.args[0] {
@@ -468,6 +511,18 @@ impl<'c> VisitMut for Rw<'c> {
                     return;
                 }
                 None => self.cx.refuse(&format!("impl Trait type {}", ts(it)), it.impl_token.span),
+            }
+        }
+        // R5: `&[&[u8]]` (KeGroup::hash_to_scalar's chunk lists) -> Chunks
+        if let Type::Reference(r) = t {
+            if let Type::Slice(sl) = &*r.elem {
+                if let Type::Reference(r2) = &*sl.elem {
+                    if ts(&*r2.elem) == "[u8]" {
+                        self.cx.rule("R5");
+                        *t = parse_quote!(Chunks<'_>);
+                        return;
+                    }
+                }
             }
         }
         visit_mut::visit_type_mut(self, t);
